@@ -58,11 +58,27 @@ struct Def {
     base: String,
     quote: String,
     perp_settle: Option<String>,
+    /// a second listing whose exchange names differ from the plain one's ONLY IN CASE ("Btc" vs "BTC",
+    /// "BtcUSDT" vs "BTCUSDT" - venues do list such pairs, e.g. GAS / Gas): a different asset and instrument
+    #[serde(default)]
+    alt_case: bool,
+}
+
+fn capitalised(s: &str) -> String {
+    let mut c = s.chars();
+    c.next().map(|f| f.to_uppercase().collect::<String>() + c.as_str()).unwrap_or_default()
 }
 
 fn to_instrument(d: &Def) -> Instrument<ExchangeId, Asset> {
     let ex = fixtures::EXCHANGES[d.exchange];
     match &d.perp_settle {
+        None if d.alt_case => Instrument::spot(
+            ex,
+            format!("{}-{}alt_{}", ex.as_str(), d.base, d.quote),
+            format!("{}{}", capitalised(&d.base), d.quote.to_uppercase()),
+            Underlying::new(Asset::new(format!("{}alt", d.base), capitalised(&d.base)), Asset::new(d.quote.as_str(), d.quote.to_uppercase())),
+            None,
+        ),
         None => fixtures::spot(ex, &d.base, &d.quote),
         Some(s) => Instrument::new(
             ex,
@@ -134,13 +150,18 @@ fn run(defs: &[Def]) -> Result<Outcome, V> {
             }
         }
         // instruments: every global index
-        let own_names: BTreeMap<&InstrumentNameExchange, InstrumentIndex> = all_instr.iter().filter(|(_, e, _)| *e == e_id).map(|(i, _, n)| (n, *i)).collect();
+        // ground truth is keyed by the SPELLING of the names (strings), never by the name types' own Eq / Ord / Hash
+        let own_names: Vec<(&InstrumentNameExchange, InstrumentIndex)> = all_instr.iter().filter(|(_, e, _)| *e == e_id).map(|(i, _, n)| (n, *i)).collect();
+        let own_names_by_str: BTreeMap<String, InstrumentIndex> = own_names.iter().map(|(n, i)| (n.name().to_string(), *i)).collect();
+        if own_names_by_str.keys().any(|a| own_names_by_str.keys().any(|b| a != b && a.eq_ignore_ascii_case(b))) {
+            out.cells.push("names_differing_only_in_case_on_one_exchange");
+        }
         for (i, e, name) in &all_instr {
             out.checks += 1;
             let got = map.find_instrument_name_exchange(*i);
             if *e == e_id {
                 match got {
-                    Ok(n) if n == name => {}
+                    Ok(n) if n.name().as_str() == name.name().as_str() => {}
                     other => {
                         return Err((
                             "instrument_index_translates_to_wrong_name",
@@ -164,7 +185,7 @@ fn run(defs: &[Def]) -> Result<Outcome, V> {
         for (_, e, name) in &all_instr {
             out.checks += 1;
             let got = map.find_instrument_index(name);
-            match own_names.get(name) {
+            match own_names_by_str.get(name.name().as_str()) {
                 Some(want) => {
                     if *e != e_id {
                         out.cells.push("instrument_name_shared_across_exchanges");
@@ -181,13 +202,14 @@ fn run(defs: &[Def]) -> Result<Outcome, V> {
             }
         }
         // assets
-        let own_assets: BTreeMap<&AssetNameExchange, AssetIndex> = all_assets.iter().filter(|(_, e, _)| *e == e_id).map(|(i, _, n)| (n, *i)).collect();
+        let own_assets: Vec<(&AssetNameExchange, AssetIndex)> = all_assets.iter().filter(|(_, e, _)| *e == e_id).map(|(i, _, n)| (n, *i)).collect();
+        let own_assets_by_str: BTreeMap<String, AssetIndex> = own_assets.iter().map(|(n, i)| (n.name().to_string(), *i)).collect();
         for (i, e, name) in &all_assets {
             out.checks += 2;
             let got = map.find_asset_name_exchange(*i);
             if *e == e_id {
                 match got {
-                    Ok(n) if n == name => {}
+                    Ok(n) if n.name().as_str() == name.name().as_str() => {}
                     other => {
                         return Err(("asset_index_translates_to_wrong_name", format!("map of {e_id} (exchange position {pos}): find_asset_name_exchange({i}) = {other:?}, defined as {name}")));
                     }
@@ -201,7 +223,7 @@ fn run(defs: &[Def]) -> Result<Outcome, V> {
                     return Err(("foreign_asset_index_translates", format!("map of {e_id}: foreign {i} (of {e}, {name}) translates to {n}")));
                 }
                 let by_name = map.find_asset_index(name);
-                match own_assets.get(name) {
+                match own_assets_by_str.get(name.name().as_str()) {
                     Some(want) => {
                         out.cells.push("asset_name_shared_across_exchanges");
                         if by_name.as_ref().ok() != Some(want) {
@@ -219,11 +241,11 @@ fn run(defs: &[Def]) -> Result<Outcome, V> {
         // listing helpers used to subscribe / snapshot: exactly the own names
         out.checks += 1;
         let mut listed: Vec<String> = map.exchange_instruments().map(|n| n.to_string()).collect();
-        let mut want: Vec<String> = own_names.keys().map(|n| n.to_string()).collect();
+        let mut want: Vec<String> = own_names_by_str.keys().cloned().collect();
         listed.sort();
         want.sort();
         let mut listed_a: Vec<String> = map.exchange_assets().map(|n| n.to_string()).collect();
-        let mut want_a: Vec<String> = own_assets.keys().map(|n| n.to_string()).collect();
+        let mut want_a: Vec<String> = own_assets_by_str.keys().cloned().collect();
         listed_a.sort();
         want_a.sort();
         if listed != want || listed_a != want_a {
@@ -419,16 +441,17 @@ fn gen_defs(rng: &mut Rng) -> Vec<Def> {
                 continue;
             }
             let perp_settle = if rng.chance(1, 3) { Some(rng.pick(&["usdt", "usdc", "btc"]).to_string()) } else { None };
-            let d = Def { exchange: *ex, base: base.into(), quote: quote.into(), perp_settle };
+            let alt_case = perp_settle.is_none() && rng.chance(1, 6);
+            let d = Def { exchange: *ex, base: base.into(), quote: quote.into(), perp_settle, alt_case };
             // one exchange never lists the same market twice (names must be unique per exchange)
-            if defs.iter().any(|x: &Def| x.exchange == d.exchange && x.base == d.base && x.quote == d.quote && x.perp_settle.is_some() == d.perp_settle.is_some()) {
+            if defs.iter().any(|x: &Def| x.exchange == d.exchange && x.base == d.base && x.quote == d.quote && x.perp_settle.is_some() == d.perp_settle.is_some() && x.alt_case == d.alt_case) {
                 continue;
             }
             defs.push(d);
         }
     }
     if defs.is_empty() {
-        defs.push(Def { exchange: exchanges[0], base: "btc".into(), quote: "usdt".into(), perp_settle: None });
+        defs.push(Def { exchange: exchanges[0], base: "btc".into(), quote: "usdt".into(), perp_settle: None, alt_case: false });
     }
     // the same instrument defined more than once (e.g. the instrument lists of two strategies concatenated):
     // the collection keeps ONE entry per distinct instrument, wherever the repeats sit in the input
@@ -590,6 +613,7 @@ fn main() {
             "asset_name_shared_across_exchanges",
             "execution_manager_round_trip",
             "duplicate_definition_in_input",
+            "names_differing_only_in_case_on_one_exchange",
             "builder:request_reached_own_client",
             "builder:linked_exchange_after_an_unlinked_one",
             "builder:exchange_without_link_routes_nowhere",
